@@ -15,6 +15,7 @@ enum Action {
     Feed { peer: usize },
     Crash { peer: usize, volatile: bool },
     Rollback { peer: usize },
+    Torn { peer: usize },
     Stale,
     Heal,
 }
@@ -161,6 +162,10 @@ impl Driver {
         if hit(rng, rate(w, "rollback")) {
             let d = (rng.u32() % 500) as u64;
             self.push(self.now + d, Action::Rollback { peer });
+        }
+        if hit(rng, rate(w, "torn_store")) {
+            let d = (rng.u32() % 500) as u64;
+            self.push(self.now + d, Action::Torn { peer });
         }
     }
 
@@ -375,6 +380,21 @@ impl Driver {
                     let k = 1 + rng.below(3);
                     let e = self.eid();
                     w.apply(e, &Ev::Rollback { peer, k });
+                }
+                Action::Torn { peer } => {
+                    let len = w.peers[peer].store.len() as u32;
+                    if len > 0 {
+                        let inner = rng.chance(50);
+                        // short and torn writes (a prefix survives, or the tail is zeroes / stale), lost sectors, bit rot
+                        let op = match rng.below(6) {
+                            0 | 1 => ForgeOp::Truncate { keep: rng.u32() % len, inner },
+                            2 | 3 => ForgeOp::ZeroWindow { off: rng.u32() % len, len: 1 + rng.u32() % 512, inner },
+                            4 => ForgeOp::FlipBit { off: rng.u32() % len, bit: (rng.u32() % 8) as u8, inner },
+                            _ => ForgeOp::Extend { n: 1 + rng.u32() % 64, byte: 0, inner },
+                        };
+                        let e = self.eid();
+                        w.apply(e, &Ev::Torn { peer, op, payload: None });
+                    }
                 }
             }
         }
